@@ -24,7 +24,10 @@ used as a function, so whatever was encoded, decoded, repaired, filled or overwr
 happens between `encode` and the decoder, the kept code word decodes to the message.  In the model that
 follows from the definitions plus one fact about the code (`fill_forgets_table`: the fill loop rewrites
 every cell of the table it is given); the correspondence run checks that the Python class behaves like
-this model on interleaved histories of every entry point.
+this model on interleaved histories of every entry point.  `reused_buffer_le2` / `reused_buffer_clean`
+state it for a frame buffer the caller overwrites in place and hands in again (nothing of the previous
+content — and no relation between the two contents — matters), `after_any_streak` for a correctable
+frame that follows any streak of other calls (unrepairable frames, calls that raise).
 -/
 
 namespace Dmr.C02
@@ -176,6 +179,77 @@ theorem history_roundtrip (before after : List Step) (m : Bits) (hm : m.length =
       simp [step, Arg.bits, hk, h2, Store.ret]
     · simp [step, Arg.bits, hd, Store.ret]
 
+/-- what a call reads from a kept object after the caller overwrote it in place: the new content, nothing
+of the old one (`put` on a bitarray; the model of `buf[:] = …`) -/
+theorem put_then_read (s : Store) (k : Nat) (old w : Bits) (hk : s.get k = some (.bits old)) :
+    ((step s (.put k (.lit w))).1).get k = some (.bits w) := by
+  simp only [step, Arg.bits, hk, Obj.accepts, Obj.withContent, if_true]
+  exact Store.get_write_eq _ _ _ (Store.lt_size_of_get _ _ _ hk)
+
+/-- the property for a frame buffer the caller RE-USES: after ANY history `before` in which handle `k` is a
+bitarray (whatever it holds — the previous frame, as received or as repaired, a word with the same info
+bits, the same parity bits, a common prefix or suffix, the same number of ones … — and however often it was
+decoded or repaired before), the caller overwrites that object in place with a word within two inverted
+bits of the code word of `m`; after ANY further history `after` that does not overwrite it, the decoder
+with repair returns exactly `m` from that same object. -/
+theorem reused_buffer_le2 (before after : List Step) (k : Nat) (old : Bits) (m : Bits) (hm : m.length = 96)
+    (e : Bits) (he : e.length = 196) (hw : weight e ≤ 2) :
+    let s₁ := runSteps Store.empty before
+    s₁.get k = some (.bits old) →
+    ∃ c, encode m = .ok c ∧
+      ((∀ st ∈ after, st.target ≠ some k) →
+        let s₂ := runSteps (step s₁ (.put k (.lit (xorBits c e)))).1 after
+        s₂.get k = some (.bits (xorBits c e))
+        ∧ (step s₂ (.data true (.ref k))).2 = .val m) := by
+  intro s₁ hk
+  obtain ⟨c, hc, hd⟩ := correct_le2 m hm e he hw
+  refine ⟨c, hc, ?_⟩
+  intro ht s₂
+  have hsz : k < (step s₁ (.put k (.lit (xorBits c e)))).1.size :=
+    Nat.lt_of_lt_of_le (Store.lt_size_of_get _ _ _ hk) (step_size_le _ _)
+  have hk₂ : s₂.get k = some (.bits (xorBits c e)) := by
+    have := runSteps_frame (step s₁ (.put k (.lit (xorBits c e)))).1 after k hsz ht
+    rw [this, put_then_read s₁ k old _ hk]
+  refine ⟨hk₂, ?_⟩
+  simp [step, Arg.bits, hk₂, hd, Store.ret]
+
+/-- the same for an error-free code word written into the re-used buffer: the decoder returns the message
+with and without repair and `repair_if_necessary` returns the code word unaltered -/
+theorem reused_buffer_clean (before after : List Step) (k : Nat) (old : Bits) (m : Bits) (hm : m.length = 96) :
+    let s₁ := runSteps Store.empty before
+    s₁.get k = some (.bits old) →
+    ∃ c, encode m = .ok c ∧
+      ((∀ st ∈ after, st.target ≠ some k) →
+        let s₂ := runSteps (step s₁ (.put k (.lit c))).1 after
+        (∀ r, (step s₂ (.data r (.ref k))).2 = .val m)
+        ∧ (step s₂ (.repair (.ref k))).2 = .val c) := by
+  intro s₁ hk
+  obtain ⟨c, hc, hr⟩ := repair_clean m hm
+  refine ⟨c, hc, ?_⟩
+  intro ht s₂
+  have hsz : k < (step s₁ (.put k (.lit c))).1.size :=
+    Nat.lt_of_lt_of_le (Store.lt_size_of_get _ _ _ hk) (step_size_le _ _)
+  have hk₂ : s₂.get k = some (.bits c) := by
+    have := runSteps_frame (step s₁ (.put k (.lit c))).1 after k hsz ht
+    rw [this, put_then_read s₁ k old _ hk]
+  refine ⟨?_, ?_⟩
+  · intro r
+    obtain ⟨c', h1, h2⟩ := decode_encode m hm r
+    rw [hc] at h1
+    cases h1
+    simp [step, Arg.bits, hk₂, h2, Store.ret]
+  · simp [step, Arg.bits, hk₂, hr, Store.ret]
+
+/-- a streak of ANY calls on ANY words (unrepairable frames, wrong lengths that raise, …) before a
+correctable frame does not matter: in every store the decoder with repair, given a new bitarray within two
+inverted bits of the code word of `m`, returns `m` -/
+theorem after_any_streak (before : List Step) (m : Bits) (hm : m.length = 96)
+    (e : Bits) (he : e.length = 196) (hw : weight e ≤ 2) :
+    ∃ c, encode m = .ok c
+      ∧ (step (runSteps Store.empty before) (.data true (.lit (xorBits c e)))).2 = .val m := by
+  obtain ⟨c, hc, hd⟩ := correct_le2 m hm e he hw
+  exact ⟨c, hc, by simp [step, Arg.bits, hd, Store.ret]⟩
+
 /-! ## non-vacuity: the hypotheses are satisfiable by non-trivial values -/
 
 /-- a message and the historically failing double error (on-air positions 2 and 24) -/
@@ -197,5 +271,15 @@ def exampleHistory : List Step :=
 
 example : (runSteps Store.empty exampleHistory).size = 5
     ∧ ∀ st ∈ exampleHistory, st.target ≠ some 5 := by decide +kernel
+
+/-- non-vacuity of `reused_buffer_le2`: a frame buffer of the caller that was decoded, overwritten in place
+and decoded again (handle 0), then three unrepairable frames; handle 0 is a bitarray afterwards -/
+def exampleReuse : List Step :=
+  [.new (List.replicate 196 true), .data true (.ref 0), .put 0 (.lit (List.replicate 196 false)),
+   .data true (.ref 0), .flip 0 5, .repair (.ref 0), .data true (.lit (List.replicate 196 true)),
+   .data true (.lit (List.replicate 196 true)), .data true (.lit (List.replicate 196 true))]
+
+example : (runSteps Store.empty exampleReuse).get 0 = some (.bits (flipAt 5 (List.replicate 196 false)))
+    ∧ (runSteps Store.empty exampleReuse).size = 7 := by decide +kernel
 
 end Dmr.C02
